@@ -15,7 +15,7 @@ DEFAULT_SCALE = {'DE': (10, 1000), 'DE2': (10, 1000), 'NM': (200, 200), 'PW': (1
 
 # further termination conditions (all of them only read the solver state, except 'gnt': GradientNormTolerance
 # differentiates the user's raw cost)
-TERMS_MORE = ['spread', 'solimp', 'vtrcog', 'or', 'and', 'when', 'gnt']
+TERMS_MORE = ['spread', 'solimp', 'vtrcog', 'or', 'and', 'when', 'gnt', 'collapse']
 
 
 def uses_gnt(case):
@@ -329,6 +329,11 @@ class SolverState(object):
                         lambda: dict(where=where, iterations=self.iters() - 1, maxiter=mi, solver=self.kind))
             return
         self.solves += 1
+        if self.termname == 'collapse':
+            # Solve applies collapses on its way (Collapse() installs constraints that fix parameters): the objective
+            # changed somewhere inside this call, so monotonicity is judged from here on only
+            self.redecorate()
+            self.ctx.label('solve-with-collapse-termination')
         # Solve() clears the exit flag at its start
         self.exit_requested = bool(s._EARLYEXIT)
         self.cost.enabled = False
